@@ -79,6 +79,15 @@ pub struct TestLifecycle {
 
 #[lifecycle(TestAgent)]
 impl TestLifecycle {
+    /// One method registered for BOTH agent events, with the stop attribute first (the derive macro has to merge the
+    /// two registrations whatever their order): logged as `life` when the agent starts and when it stops.
+    #[on_stop]
+    #[on_start]
+    pub fn start_or_stop(&self, context: HandlerContext<TestAgent>) -> impl EventHandler<TestAgent> {
+        let log = self.log.clone();
+        context.effect(move || log.lock().unwrap().push("life".to_string()))
+    }
+
     #[on_event(val_state)]
     pub fn on_val(&self, context: HandlerContext<TestAgent>, value: &i32) -> impl EventHandler<TestAgent> {
         let log = self.log.clone();
